@@ -1,14 +1,1058 @@
-//! C06 — not built yet.
-use crate::engine::{Ctx, Property};
+//! C06 — character-to-glyph mapping conforms to the cmap encodings.
+//!
+//! Forward construction: a cmap *model* (1–4 encoding records, each a code→glyph map) is
+//! encoded by `fontgen::cmap` under freely chosen byte layouts, embedded in a complete font and
+//! read back through allsorts (`Font::lookup_glyph_index`, `Font::map_glyphs`,
+//! `CmapSubtable::map_glyph`, `owned::CmapSubtable::map_glyph`, `mappings_fn`, `mappings`).
+//! The expected glyph is the model entry of the record the documented preference order
+//! selects, under the code derivation of that record's encoding (`refmodel::cmap`).
+//! Plus exhaustive sweeps (all 16-bit codes per 16-bit subtable, all scalar values through a
+//! font) and exhaustive Mac OS Roman / Big5 conversion checks.
+
+use crate::engine::util::pick;
+use crate::engine::{CaseResult, Ctx, Fail, Property, Rec};
+use crate::fontgen::basic::{os2_v4, BasicFont};
+use crate::fontgen::cmap::{self as enc, Chooser, Encoded};
+use crate::fontgen::sfnt::{build_sfnt, TTF};
+use crate::refmodel::cmap::{self as rm, Enc};
+use allsorts::binary::read::ReadScope;
+use allsorts::font::{Encoding, Font, MatchingPresentation};
+use allsorts::font_data::FontData;
+use allsorts::tables::cmap::{Cmap, CmapSubtable};
+use proptest::prelude::*;
+use std::collections::{BTreeMap, BTreeSet};
 
 pub struct C06;
+
+fn fail(kind: &str, msg: String) -> Fail {
+    Fail::new(format!("C06:{}", kind), msg)
+}
+
+// ---------------------------------------------------------------------------------------------
+// model
+
+#[derive(Clone, Debug)]
+pub struct RecModel {
+    pub platform: u16,
+    pub encoding: u16,
+    /// 0, 2, 4, 6, 10, 12, or 14 (empty variation-sequence stub)
+    pub format: u16,
+    pub map: BTreeMap<u32, u16>,
+    /// format 2: lead bytes declared without characters
+    pub extra_leads: BTreeSet<u8>,
+}
+
+#[derive(Clone, Debug)]
+pub struct Case {
+    pub recs: Vec<RecModel>,
+    /// OS/2.usFirstCharIndex; None = the font has no OS/2 table
+    pub first_char: Option<u16>,
+    pub layout: Vec<u32>,
+    pub probes: Vec<u32>,
+}
+
+/// one run of codes of a model
+#[derive(Clone, Debug)]
+pub(crate) struct Run {
+    sel: u8,
+    rnd: u32,
+    len: u8,
+    gid0: u16,
+    kind: u8,
+    holes: u32,
+}
+
+fn run_strategy() -> impl Strategy<Value = Run> {
+    (any::<u8>(), any::<u32>(), prop_oneof![3 => 1u8..6, 2 => 1u8..40, 1 => 40u8..120], any::<u16>(), 0u8..8, any::<u32>())
+        .prop_map(|(sel, rnd, len, gid0, kind, holes)| Run { sel, rnd, len, gid0, kind, holes })
+}
+
+const STARTS16: [u32; 20] = [
+    0, 1, 0x20, 0x41, 0x7E, 0xFF, 0x100, 0x7FFF, 0x8000, 0xD7FF, 0xE000, 0xF000, 0xF020, 0xF041, 0xF0FF, 0xFFF0, 0xFFFC,
+    0xFFFD, 0xFFFE, 0xFFFF,
+];
+const STARTS32: [u32; 10] = [0xFFFE, 0xFFFF, 0x10000, 0x1F600, 0x2F800, 0xE0100, 0xFFFFE, 0x10FFF0, 0x10FFFE, 0x10FFFF];
+
+#[derive(Clone, Copy, Debug, PartialEq)]
+pub(crate) enum Domain {
+    Bmp,
+    Full,
+    Byte,
+}
+
+pub(crate) fn build_map(runs: &[Run], dom: Domain, max_gid: u16, dense: bool) -> BTreeMap<u32, u16> {
+    let max_code: u32 = match dom {
+        Domain::Bmp => 0xFFFF,
+        Domain::Full => 0x10FFFF,
+        Domain::Byte => 0xFF,
+    };
+    let mut m = BTreeMap::new();
+    let mut dense_base: Option<u32> = None;
+    let mut prev: Option<Run> = None;
+    for r in runs {
+        // kinds 6, 7: the glyph pattern of the previous run again at another place (identical
+        // value arrays that layouts may share)
+        let r = &match (&prev, r.kind >= 6) {
+            (Some(p), true) => Run { sel: r.sel, rnd: r.rnd, ..p.clone() },
+            _ => Run { kind: r.kind % 6, ..r.clone() },
+        };
+        prev = Some(r.clone());
+        let mut start = match dom {
+            Domain::Byte => r.rnd % 256,
+            Domain::Bmp => {
+                if r.sel < 140 {
+                    STARTS16[pick(STARTS16.len(), r.rnd)]
+                } else {
+                    r.rnd & 0xFFFF
+                }
+            }
+            Domain::Full => {
+                if r.sel < 70 {
+                    STARTS16[pick(STARTS16.len(), r.rnd)]
+                } else if r.sel < 150 {
+                    STARTS32[pick(STARTS32.len(), r.rnd)]
+                } else if r.sel < 200 {
+                    r.rnd % 0x110000
+                } else {
+                    r.rnd & 0xFFFF
+                }
+            }
+        };
+        if dense {
+            // trimmed-array formats: keep all runs within one window of a few hundred codes
+            match dense_base {
+                None => dense_base = Some(start),
+                Some(b) => start = (b + (r.rnd >> 8) % 300).min(max_code),
+            }
+        }
+        for j in 0..r.len as u32 {
+            let code = match start.checked_add(j) {
+                Some(c) if c <= max_code => c,
+                _ => break,
+            };
+            if r.kind >= 3 && (r.holes >> (j % 32)) & 1 == 1 {
+                continue;
+            }
+            let g = match r.kind % 3 {
+                0 => r.gid0.wrapping_add(j as u16),
+                1 => (r.gid0 as u32).wrapping_mul(31).wrapping_add(j.wrapping_mul(7919)) as u16,
+                _ => r.gid0,
+            };
+            let g = if max_gid == 0xFFFF { g } else { g % (max_gid + 1) };
+            if g != 0 {
+                m.insert(code, g);
+            }
+        }
+    }
+    m
+}
+
+/// characters for a Big5 model
+pub(crate) fn big5_map(items: &[(u8, u32, u16)]) -> BTreeMap<u32, u16> {
+    let mut m = BTreeMap::new();
+    for (sel, rnd, gid) in items {
+        let ch = match sel % 8 {
+            0 => char::from_u32(rnd % 0x80),
+            1 | 2 => char::from_u32(0x4E00 + rnd % 0x51A6),
+            3 => char::from_u32(0x0391 + rnd % 57),
+            4 => char::from_u32(0xFF01 + rnd % 0x5E),
+            5 => char::from_u32(0x2550 + rnd % 0x30),
+            6 => char::from_u32(0x3041 + rnd % 0x56),
+            _ => None,
+        };
+        let code = match ch {
+            Some(c) => rm::big5_encode(c).map(u32::from),
+            None => {
+                // a raw two-byte code (possibly outside the encoder's image)
+                let lead = 0x81 + (rnd >> 8) % 0x7E;
+                let t = rnd % 157;
+                let trail = if t < 63 { 0x40 + t } else { 0xA1 + (t - 63) };
+                Some(lead << 8 | trail)
+            }
+        };
+        if let (Some(code), true) = (code, *gid != 0) {
+            m.insert(code, *gid);
+        }
+    }
+    m
+}
+
+fn rec_strategy() -> impl Strategy<Value = RecModel> {
+    let runs = || proptest::collection::vec(run_strategy(), 0..7);
+    let mk = |p: u16, e: u16, f: u16, map: BTreeMap<u32, u16>| RecModel { platform: p, encoding: e, format: f, map, extra_leads: BTreeSet::new() };
+    let uni_enc = || prop_oneof![Just(0u16), Just(1), Just(2), Just(3), Just(6)];
+    prop_oneof![
+        3 => runs().prop_map(move |r| mk(3, 10, 12, build_map(&r, Domain::Full, 0xFFFF, false))),
+        4 => runs().prop_map(move |r| mk(3, 1, 4, build_map(&r, Domain::Bmp, 0xFFFF, false))),
+        2 => runs().prop_map(move |r| mk(0, 4, 12, build_map(&r, Domain::Full, 0xFFFF, false))),
+        1 => runs().prop_map(move |r| mk(0, 4, 4, build_map(&r, Domain::Bmp, 0xFFFF, false))),
+        2 => (uni_enc(), runs()).prop_map(move |(e, r)| mk(0, e, 4, build_map(&r, Domain::Bmp, 0xFFFF, false))),
+        2 => (uni_enc(), runs()).prop_map(move |(e, r)| mk(0, e, 6, build_map(&r, Domain::Bmp, 0xFFFF, true))),
+        2 => (uni_enc(), runs()).prop_map(move |(e, r)| mk(0, e, 10, build_map(&r, Domain::Full, 0xFFFF, true))),
+        1 => (uni_enc(), runs()).prop_map(move |(e, r)| mk(0, e, 12, build_map(&r, Domain::Full, 0xFFFF, false))),
+        4 => runs().prop_map(move |r| mk(3, 0, 4, build_map(&r, Domain::Bmp, 0xFFFF, false))),
+        3 => runs().prop_map(move |r| mk(1, 0, 0, build_map(&r, Domain::Byte, 0xFF, false))),
+        2 => runs().prop_map(move |r| mk(1, 0, 6, build_map(&r, Domain::Byte, 0xFFFF, true))),
+        3 => (proptest::collection::vec((any::<u8>(), any::<u32>(), any::<u16>()), 0..40), any::<u8>()).prop_map(move |(items, l)| {
+            let mut m = mk(3, 4, 2, big5_map(&items));
+            // real Big5 fonts declare every lead byte; sometimes only some / only the used ones
+            match l % 4 {
+                0 | 1 => m.extra_leads = (0x81u8..=0xFE).collect(),
+                2 => m.extra_leads = (0xA1u8..=0xC6).collect(),
+                _ => {}
+            }
+            // a single byte code that is also a lead byte cannot be represented
+            let leads = enc::format2_leads(&m.map, &m.extra_leads);
+            m.map.retain(|c, _| *c >= 0x100 || !leads.contains(&(*c as u8)));
+            m
+        }),
+        2 => proptest::collection::vec((any::<u8>(), any::<u32>(), any::<u16>()), 0..40).prop_map(move |items| mk(3, 4, 4, big5_map(&items))),
+        // a generic (non Big5) mixed 8/16-bit model in a record allsorts does not use
+        1 => runs().prop_map(move |r| {
+            let mut m = build_map(&r, Domain::Bmp, 0xFFFF, false);
+            let leads: BTreeSet<u32> = m.keys().filter(|c| **c >= 0x100).map(|c| *c >> 8).collect();
+            m.retain(|c, _| *c >= 0x100 || !leads.contains(c));
+            mk(3, 2, 2, m)
+        }),
+        // records allsorts ignores
+        1 => runs().prop_map(move |r| mk(3, 2, 4, build_map(&r, Domain::Bmp, 0xFFFF, false))),
+        1 => runs().prop_map(move |r| mk(1, 1, 0, build_map(&r, Domain::Byte, 0xFF, false))),
+        1 => runs().prop_map(move |r| mk(3, 5, 4, build_map(&r, Domain::Bmp, 0xFFFF, false))),
+        1 => runs().prop_map(move |r| mk(4, 0, 0, build_map(&r, Domain::Byte, 0xFF, false))),
+        1 => Just(mk(0, 5, 14, BTreeMap::new())),
+    ]
+}
+
+fn first_char_strategy() -> impl Strategy<Value = Option<u16>> {
+    prop_oneof![
+        3 => Just(None),
+        5 => Just(Some(0x20u16)),
+        7 => Just(Some(0xF020u16)),
+        2 => prop_oneof![Just(0x21u16), Just(0x41), Just(0x100), Just(0xF000), Just(0xF021), Just(0xFFFF)].prop_map(Some),
+        2 => (0x20u16..=0xFFFF).prop_map(Some),
+    ]
+}
+
+/// `force`: restrict the records to kinds that make the given encoding the selected one
+fn case_strategy(force: Option<Enc>) -> impl Strategy<Value = Case> {
+    (
+        proptest::collection::vec(rec_strategy(), 1..5),
+        first_char_strategy(),
+        proptest::collection::vec(any::<u32>(), 0..80),
+        proptest::collection::vec(any::<u32>(), 0..24),
+    )
+        .prop_map(move |(mut recs, first_char, layout, probes)| {
+            // one record per (platform, encoding)
+            let mut seen = BTreeSet::new();
+            recs.retain(|r| seen.insert((r.platform, r.encoding)));
+            if let Some(want) = force {
+                // drop records that would be preferred over the wanted encoding
+                recs.retain(|r| {
+                    let e = class_of(r);
+                    match (want, e) {
+                        (_, None) => true,
+                        (Enc::Unicode, Some(_)) => true,
+                        (w, Some(e)) => rank(e) >= rank(w),
+                    }
+                });
+            }
+            Case { recs, first_char, layout, probes }
+        })
+}
+
+fn rank(e: Enc) -> u8 {
+    match e {
+        Enc::Unicode => 0,
+        Enc::Symbol => 1,
+        Enc::MacRoman => 2,
+        Enc::Big5 => 3,
+    }
+}
+
+/// the encoding a record would be used with, None if allsorts never selects it
+fn class_of(r: &RecModel) -> Option<Enc> {
+    match (r.platform, r.encoding) {
+        (3, 10) | (3, 1) | (0, _) => Some(Enc::Unicode),
+        (3, 0) => Some(Enc::Symbol),
+        (1, 0) => Some(Enc::MacRoman),
+        (3, 4) => Some(Enc::Big5),
+        _ => None,
+    }
+}
+
+// ---------------------------------------------------------------------------------------------
+// encoding the case
+
+pub struct Built {
+    pub cmap: Vec<u8>,
+    pub font: Vec<u8>,
+    pub subs: Vec<Encoded>,
+    /// records in file order (sorted), each with the index of its model
+    pub order: Vec<usize>,
+}
+
+pub fn encode_record(r: &RecModel, ch: &mut Chooser) -> Encoded {
+    let lang = if r.platform == 1 { (ch.pick(3)) as u16 } else { 0 };
+    match r.format {
+        0 => enc::format0(&r.map, lang),
+        2 => enc::format2(&r.map, &r.extra_leads, lang, ch),
+        4 => enc::format4(&r.map, lang, ch),
+        6 => enc::format6(&r.map, lang, ch),
+        10 => enc::format10(&r.map, lang as u32, ch),
+        12 => enc::format12(&r.map, lang as u32, ch),
+        _ => Encoded { bytes: enc::format14_empty(), ..Default::default() },
+    }
+}
+
+pub fn build(case: &Case) -> Built {
+    let mut ch = Chooser::new(&case.layout);
+    let subs: Vec<Encoded> = case.recs.iter().map(|r| encode_record(r, &mut ch)).collect();
+    let mut order: Vec<usize> = (0..case.recs.len()).collect();
+    order.sort_by_key(|i| (case.recs[*i].platform, case.recs[*i].encoding));
+    let records: Vec<(u16, u16, usize)> = case.recs.iter().enumerate().map(|(i, r)| (r.platform, r.encoding, i)).collect();
+    let bodies: Vec<Vec<u8>> = subs.iter().map(|s| s.bytes.clone()).collect();
+    let cmap = enc::cmap_table(&records, &bodies, &mut ch);
+    let mut bf = BasicFont::with_glyphs(3);
+    bf.extra.push((*b"cmap", cmap.clone()));
+    if let Some(fc) = case.first_char {
+        bf.extra.push((*b"OS/2", os2_v4(fc, 0xFFFF, 400)));
+    }
+    let mut tables = bf.tables();
+    if case.first_char.is_none() {
+        tables.retain(|t| &t.0 != b"OS/2");
+    }
+    let font = build_sfnt(TTF, &tables);
+    Built { cmap, font, subs, order }
+}
+
+fn enc_of(e: Encoding) -> Enc {
+    match e {
+        Encoding::Unicode => Enc::Unicode,
+        Encoding::Symbol => Enc::Symbol,
+        Encoding::AppleRoman => Enc::MacRoman,
+        Encoding::Big5 => Enc::Big5,
+    }
+}
+
+/// The record the documented preference order selects, from the *model* (file order = sorted
+/// by platform, encoding). Format 14 records are not character maps: a conforming reader
+/// passes over them.
+fn model_selection(case: &Case, order: &[usize], skip_f14: bool) -> Option<(usize, Enc)> {
+    let recs: Vec<rm::Record> = order
+        .iter()
+        .filter(|i| !(skip_f14 && case.recs[**i].format == 14))
+        .map(|i| rm::Record { platform: case.recs[*i].platform, encoding: case.recs[*i].encoding, offset: *i as u32 })
+        .collect();
+    rm::select(&recs).map(|(k, e)| (recs[k].offset as usize, e))
+}
+
+/// Expected glyph of `ch` through the font; None = the case is outside what the check asserts.
+fn expected_font(r: &RecModel, e: Enc, first_char: u16, ch: char) -> Option<u16> {
+    if e == Enc::MacRoman && rm::mac_roman_disputed_char(ch as u32) {
+        return None;
+    }
+    let code = match rm::char_code(e, ch, first_char) {
+        Some(c) => c,
+        None => return Some(0),
+    };
+    if r.format == 2 {
+        let leads = enc::format2_leads(&r.map, &r.extra_leads);
+        if !enc::format2_unambiguous(&leads, code) {
+            return None;
+        }
+    }
+    Some(r.map.get(&code).copied().unwrap_or(0))
+}
+
+fn code_limit(format: u16) -> u32 {
+    match format {
+        0 | 2 | 4 | 6 => 0xFFFF,
+        _ => u32::MAX,
+    }
+}
+
+// ---------------------------------------------------------------------------------------------
+// checks on one subtable (direct API)
+
+fn norm(r: Result<Option<u16>, allsorts::error::ParseError>, code: u32, format: u16, what: &str) -> Result<u16, Fail> {
+    match r {
+        Ok(Some(g)) => Ok(g),
+        Ok(None) => Ok(0),
+        // a code wider than the format's code space has no mapping; an error is as good as None
+        Err(_) if code > code_limit(format) => Ok(0),
+        Err(e) => Err(fail("map_glyph-error", format!("{}: format {} code {:#X}: {:?}", what, format, code, e))),
+    }
+}
+
+fn check_subtable(r: &RecModel, e: &Encoded, cmap_bytes: &[u8], offset: u32, extra_probes: &[u32], rec: &mut Rec, stats: &mut Stats) -> CaseResult {
+    let scope = ReadScope::new(cmap_bytes);
+    let st = scope
+        .offset(offset as usize)
+        .read::<CmapSubtable<'_>>()
+        .map_err(|err| fail("subtable-rejected", format!("format {} subtable not read: {:?}", r.format, err)))?;
+    let owned = st.to_owned();
+    if owned.is_none() && r.format != 2 {
+        return Err(fail("to_owned-none", format!("to_owned() is None for format {}", r.format)));
+    }
+    // self-check of the harness: the independent reader must see the model in the encoder's bytes
+    let mine = rm::subtable(cmap_bytes, offset).expect("refmodel: subtable not recognised");
+    let leads = enc::format2_leads(&r.map, &r.extra_leads);
+
+    // probe set
+    let mut probes: BTreeSet<u32> = BTreeSet::new();
+    for c in r.map.keys() {
+        probes.insert(*c);
+    }
+    for edge in &e.edges {
+        probes.insert(edge.wrapping_sub(1));
+        probes.insert(*edge);
+        probes.insert(edge.wrapping_add(1));
+    }
+    for c in [0u32, 1, 0xFF, 0x100, 0xFFFE, 0xFFFF, 0x10000, 0x10001, 0x1FFFF, 0x10FFFF, 0x110000, 0xFFFF_FFFF] {
+        probes.insert(c);
+    }
+    for p in extra_probes {
+        probes.insert(*p);
+        probes.insert(*p & 0xFFFF);
+        probes.insert(*p % 0x110000);
+    }
+    let sweep16 = matches!(r.format, 2 | 4 | 6) && e.segments <= 96;
+    let sweep: Box<dyn Iterator<Item = u32>> = if r.format == 0 {
+        Box::new(0..256u32)
+    } else if sweep16 {
+        Box::new(0..=0xFFFFu32)
+    } else {
+        Box::new(std::iter::empty())
+    };
+    if sweep16 {
+        rec.class("sweep:all-65536-codes");
+    }
+    let mut n = 0u64;
+    for code in probes.iter().copied().chain(sweep) {
+        let exp = r.map.get(&code).copied().unwrap_or(0);
+        if r.format == 2 {
+            if code > 0xFFFF {
+                // a 32-bit code is not a character of a 16-bit subtable
+                let got = norm(st.map_glyph(code), code, 2, "map_glyph")?;
+                if got != 0 {
+                    stats.f2_alias = Some(format!(
+                        "format 2 map_glyph({:#X}) = {} (the code is wider than 16 bits; {:#X} maps to {})",
+                        code,
+                        got,
+                        code & 0xFFFF,
+                        r.map.get(&(code & 0xFFFF)).copied().unwrap_or(0)
+                    ));
+                }
+                continue;
+            }
+            if !enc::format2_unambiguous(&leads, code) {
+                stats.excluded_f2 += 1;
+                continue;
+            }
+        }
+        let my = mine.lookup(code).expect("refmodel: lookup failed on own encoding");
+        assert_eq!(my, exp, "refmodel/fontgen disagree: format {} code {:#X}", r.format, code);
+        let got = norm(st.map_glyph(code), code, r.format, "map_glyph")?;
+        if got != exp {
+            if let Some(d) = e.zero_entry_with_delta.get(&code) {
+                if got == *d && exp == 0 {
+                    stats.zero_entry = Some(format!(
+                        "format 4 code {:#X} lands on glyphIdArray entry 0 in a segment with idDelta {}: got glyph {}, the specification says missing glyph (0)",
+                        code, d, got
+                    ));
+                    continue;
+                }
+            }
+            return Err(fail(
+                &format!("map_glyph-f{}", r.format),
+                format!("({},{}) format {}: map_glyph({:#X}) = {}, model says {}", r.platform, r.encoding, r.format, code, got, exp),
+            ));
+        }
+        if let Some(o) = &owned {
+            let og = norm(o.map_glyph(code), code, r.format, "owned map_glyph")?;
+            if og != got {
+                return Err(fail(
+                    "owned-differs",
+                    format!("format {} code {:#X}: owned::CmapSubtable::map_glyph = {}, borrowed = {}", r.format, code, og, got),
+                ));
+            }
+        }
+        if exp != 0 {
+            stats.hits += 1;
+        }
+        n += 1;
+    }
+    stats.probes += n;
+
+    // enumeration: exactly the model's pairs (glyph != 0), each code once
+    let mut listed: Vec<(u32, u16)> = Vec::new();
+    st.mappings_fn(|c, g| listed.push((c, g)))
+        .map_err(|err| fail("mappings_fn-error", format!("format {}: {:?}", r.format, err)))?;
+    let mut set: BTreeMap<u32, u16> = BTreeMap::new();
+    for (c, g) in &listed {
+        if *g == 0 {
+            continue;
+        }
+        if let Some(d) = e.zero_entry_with_delta.get(c) {
+            if *g == *d {
+                stats.zero_entry.get_or_insert_with(|| format!("format 4 mappings_fn lists ({:#X}, {}) for a glyphIdArray entry 0", c, g));
+                continue;
+            }
+        }
+        if let Some(prev) = set.insert(*c, *g) {
+            if prev != *g {
+                return Err(fail("mappings_fn-duplicate", format!("format {}: code {:#X} listed with glyphs {} and {}", r.format, c, prev, g)));
+            }
+        }
+    }
+    if set != r.map {
+        let missing: Vec<_> = r.map.iter().filter(|(c, g)| set.get(c) != Some(g)).take(4).collect();
+        let invented: Vec<_> = set.iter().filter(|(c, g)| r.map.get(c) != Some(g)).take(4).collect();
+        return Err(fail(
+            &format!("mappings_fn-f{}", r.format),
+            format!("format {}: enumeration differs from the model; missing/wrong {:X?}, invented {:X?}", r.format, missing, invented),
+        ));
+    }
+    // mappings(): glyph -> first code in enumeration order
+    let mp = st.mappings().map_err(|err| fail("mappings-error", format!("format {}: {:?}", r.format, err)))?;
+    let mut first: BTreeMap<u16, u32> = BTreeMap::new();
+    for (c, g) in &listed {
+        first.entry(*g).or_insert(*c);
+    }
+    if mp.len() != first.len() {
+        return Err(fail("mappings-size", format!("format {}: mappings() has {} glyphs, enumeration {}", r.format, mp.len(), first.len())));
+    }
+    for (g, c) in &first {
+        if mp.get(g) != Some(c) {
+            return Err(fail(
+                "mappings-first",
+                format!("format {}: mappings()[{}] = {:X?}, first code enumerated for that glyph is {:#X}", r.format, g, mp.get(g), c),
+            ));
+        }
+    }
+    Ok(())
+}
+
+#[derive(Default)]
+struct Stats {
+    probes: u64,
+    hits: u64,
+    excluded_f2: u64,
+    excluded_mac: u64,
+    zero_entry: Option<String>,
+    f2_alias: Option<String>,
+    f14_selected: Option<String>,
+}
+
+// ---------------------------------------------------------------------------------------------
+// the case
+
+fn load_font(bytes: &[u8]) -> Result<Font<allsorts::font_data::DynamicFontTableProvider<'_>>, String> {
+    let fd = ReadScope::new(bytes).read::<FontData<'_>>().map_err(|e| format!("{:?}", e))?;
+    let prov = fd.table_provider(0).map_err(|e| format!("{:?}", e))?;
+    Font::new(prov).map_err(|e| format!("{:?}", e))
+}
+
+/// chars that reach `code` under encoding `e` (candidates; the expectation is always computed
+/// forwards, so a wrong candidate is merely an uninteresting probe)
+fn chars_for_code(e: Enc, code: u32, first_char: u16, out: &mut BTreeSet<char>) {
+    let mut push = |v: u32| {
+        if let Some(c) = char::from_u32(v) {
+            out.insert(c);
+        }
+    };
+    match e {
+        Enc::Unicode => push(code),
+        Enc::Symbol | Enc::MacRoman => {
+            if e == Enc::MacRoman && code < 256 {
+                push(rm::mac_roman_decode(code as u8));
+            }
+            if let Some(c0) = code.checked_add(0x20).and_then(|v| v.checked_sub(first_char as u32)) {
+                push(c0);
+                if c0 <= 0xFF {
+                    push(c0 + 0xF000);
+                }
+            }
+        }
+        Enc::Big5 => {
+            if code <= 0xFFFF {
+                if let Some(v) = rm::big5_decode(code as u16) {
+                    for c in v {
+                        out.insert(c);
+                    }
+                }
+            }
+        }
+    }
+}
+
+const VS: [u32; 5] = [0xFE00, 0xFE01, 0xFE02, 0xFE0E, 0xFE0F];
+
+pub fn check_case(case: &Case, rec: &mut Rec) -> CaseResult {
+    check_case_inner(case, rec, false)
+}
+
+fn check_case_inner(case: &Case, rec: &mut Rec, full_sweep: bool) -> CaseResult {
+    let built = build(case);
+    rec.artefact("font", &built.font);
+    rec.hash_bytes(&built.cmap);
+    if let Some(fc) = case.first_char {
+        rec.hash_u64(fc as u64);
+    }
+    let mut stats = Stats::default();
+
+    // 1. table header as allsorts sees it
+    let cmap = ReadScope::new(&built.cmap)
+        .read::<Cmap<'_>>()
+        .map_err(|e| fail("cmap-rejected", format!("cmap header not read: {:?}", e)))?;
+    let seen: Vec<(u16, u16, u32)> = cmap.encoding_records().map(|r| (r.platform_id.0, r.encoding_id.0, r.offset)).collect();
+    let mine = rm::records(&built.cmap).expect("refmodel: header");
+    let want: Vec<(u16, u16, u32)> = mine.iter().map(|r| (r.platform, r.encoding, r.offset)).collect();
+    if seen != want {
+        return Err(fail("encoding-records", format!("encoding records {:?}, written {:?}", seen, want)));
+    }
+    assert_eq!(mine.len(), built.order.len());
+
+    // 2. every subtable through the direct API
+    for (k, &i) in built.order.iter().enumerate() {
+        let r = &case.recs[i];
+        if r.format == 14 {
+            continue;
+        }
+        for c in &built.subs[i].classes {
+            rec.class(c);
+        }
+        rec.class(&format!("record:({},{}) f{}", r.platform, r.encoding, r.format));
+        check_subtable(r, &built.subs[i], &built.cmap, mine[k].offset, &case.probes, rec, &mut stats)?;
+    }
+
+    // 3. through the font
+    let sel_spec = model_selection(case, &built.order, true);
+    let sel_literal = model_selection(case, &built.order, false);
+    let first_char = case.first_char.unwrap_or(0x20);
+    match load_font(&built.font) {
+        Err(e) => {
+            // no character map at all; a cmap holding only a variation-sequence record may be
+            // accepted or rejected
+            if sel_spec.is_some() {
+                return Err(fail("font-rejected", format!("Font::new failed ({}) although the cmap has a supported record", e)));
+            }
+            rec.class("font:no-suitable-record");
+        }
+        Ok(mut font) => {
+            let (idx, e) = match (sel_spec, sel_literal) {
+                (Some(s), Some(l)) if s == l => s,
+                (s, Some((li, _))) if case.recs[li].format == 14 => {
+                    // the literal "first platform 0 record" rule lands on a variation-sequence
+                    // subtable, which is not a character map
+                    rec.class("font:first-unicode-record-is-format-14");
+                    let (si, se) = match s {
+                        Some(s) => s,
+                        None => return finish(case, rec, stats),
+                    };
+                    let probe = case.recs[si].map.keys().find_map(|c| {
+                        let mut set = BTreeSet::new();
+                        chars_for_code(se, *c, first_char, &mut set);
+                        set.into_iter().find(|ch| expected_font(&case.recs[si], se, first_char, *ch).map_or(false, |g| g != 0))
+                    });
+                    let ch = match probe {
+                        Some(ch) => ch,
+                        // nothing is mapped: both readings answer 0 everywhere
+                        None => return finish(case, rec, stats),
+                    };
+                    let got = font.lookup_glyph_index(ch, MatchingPresentation::NotRequired, None).0;
+                    if got == 0 && font.cmap_subtable_encoding == Encoding::Unicode {
+                        stats.f14_selected = Some(format!(
+                            "cmap whose first platform 0 record is (0,5) format 14: U+{:04X} maps to 0 although the ({},{}) record maps it",
+                            ch as u32, case.recs[si].platform, case.recs[si].encoding
+                        ));
+                        return finish(case, rec, stats);
+                    }
+                    (si, se)
+                }
+                (None, None) => {
+                    return Err(fail("font-accepted", "Font::new succeeded although no record is supported".to_string()));
+                }
+                (s, l) => {
+                    panic!("selection models disagree: {:?} {:?}", s, l);
+                }
+            };
+            let r = &case.recs[idx];
+            if enc_of(font.cmap_subtable_encoding) != e {
+                return Err(fail(
+                    "selection-encoding",
+                    format!("cmap_subtable_encoding = {:?}, the preference order selects ({},{}) = {:?}", font.cmap_subtable_encoding, r.platform, r.encoding, e),
+                ));
+            }
+            rec.class(&format!("selected:({},{}) f{}", r.platform, r.encoding, r.format));
+            rec.class(&format!("selected-of-{}", case.recs.len()));
+            if e == Enc::Symbol || e == Enc::MacRoman {
+                rec.class(match case.first_char {
+                    None => "usFirstCharIndex:no-OS/2",
+                    Some(0x20) => "usFirstCharIndex:0x20",
+                    Some(0xF020) => "usFirstCharIndex:0xF020",
+                    Some(_) => "usFirstCharIndex:other",
+                });
+            }
+            // probe characters
+            let mut chars: BTreeSet<char> = BTreeSet::new();
+            for c in r.map.keys() {
+                chars_for_code(e, *c, first_char, &mut chars);
+            }
+            for edge in &built.subs[idx].edges {
+                for d in [edge.wrapping_sub(1), edge.wrapping_add(1)] {
+                    chars_for_code(e, d, first_char, &mut chars);
+                }
+            }
+            for v in [0u32, 0x20, 0x41, 0x7F, 0xA0, 0xFF, 0x100, 0x25CC, 0xF020, 0xF041, 0xF0FF, 0xF100, 0xFFFD, 0xFFFE, 0xFFFF, 0x10000, 0x1F600, 0x10FFFF] {
+                if let Some(c) = char::from_u32(v) {
+                    chars.insert(c);
+                }
+            }
+            for p in &case.probes {
+                if let Some(c) = char::from_u32(*p % 0x110000) {
+                    chars.insert(c);
+                }
+                if let Some(c) = char::from_u32(*p & 0xFFFF) {
+                    chars.insert(c);
+                }
+            }
+            let mut text = String::new();
+            let mut text_exp: Vec<u16> = Vec::new();
+            let all: Box<dyn Iterator<Item = char>> = if full_sweep {
+                rec.class("sweep:all-scalar-values");
+                Box::new((0..0x110000u32).filter_map(char::from_u32))
+            } else {
+                Box::new(chars.iter().copied())
+            };
+            for ch in all {
+                let exp = match expected_font(r, e, first_char, ch) {
+                    Some(g) => g,
+                    None => {
+                        if r.format == 2 {
+                            stats.excluded_f2 += 1;
+                        } else {
+                            stats.excluded_mac += 1;
+                        }
+                        continue;
+                    }
+                };
+                let (got, _) = font.lookup_glyph_index(ch, MatchingPresentation::NotRequired, None);
+                if got != exp {
+                    if r.format == 4 {
+                        if let Some(code) = rm::char_code(e, ch, first_char) {
+                            if let Some(d) = built.subs[idx].zero_entry_with_delta.get(&code) {
+                                if got == *d && exp == 0 {
+                                    stats.zero_entry.get_or_insert_with(|| format!("lookup_glyph_index(U+{:04X}) = {} for a glyphIdArray entry 0", ch as u32, got));
+                                    continue;
+                                }
+                            }
+                        }
+                    }
+                    return Err(fail(
+                        &format!("lookup-{:?}", e).to_lowercase(),
+                        format!(
+                            "lookup_glyph_index(U+{:04X}) = {}, expected {} (selected ({},{}) format {}, code {:X?}, usFirstCharIndex {:?})",
+                            ch as u32,
+                            got,
+                            exp,
+                            r.platform,
+                            r.encoding,
+                            r.format,
+                            rm::char_code(e, ch, first_char),
+                            case.first_char
+                        ),
+                    ));
+                }
+                stats.probes += 1;
+                if exp != 0 {
+                    stats.hits += 1;
+                }
+                if !full_sweep && !VS.contains(&(ch as u32)) && text_exp.len() < 400 {
+                    text.push(ch);
+                    text_exp.push(exp);
+                }
+            }
+            // map_glyphs over the same characters (Myanmar script tag: no text preprocessing)
+            let glyphs = font.map_glyphs(&text, allsorts::tag::MYM2, MatchingPresentation::NotRequired);
+            let got: Vec<u16> = glyphs.iter().map(|g| g.glyph_index).collect();
+            if got != text_exp {
+                let at = got.iter().zip(text_exp.iter()).position(|(a, b)| a != b);
+                return Err(fail(
+                    "map_glyphs",
+                    format!("map_glyphs differs from per-character expectation at {:?} (lengths {} / {})", at, got.len(), text_exp.len()),
+                ));
+            }
+            for (g, ch) in glyphs.iter().zip(text.chars()) {
+                if g.unicodes.as_slice() != [ch] {
+                    return Err(fail("map_glyphs-unicodes", format!("glyph for U+{:04X} carries unicodes {:?}", ch as u32, g.unicodes)));
+                }
+            }
+        }
+    }
+    finish(case, rec, stats)
+}
+
+fn finish(case: &Case, rec: &mut Rec, stats: Stats) -> CaseResult {
+    rec.evaluations(stats.probes);
+    rec.set_nontrivial(stats.hits > 0);
+    rec.class_if(stats.excluded_f2 > 0, "excluded:format-2-ambiguous-code");
+    rec.class_if(stats.excluded_mac > 0, "excluded:mac-roman-disputed-char");
+    rec.sample(|| {
+        format!(
+            "records {:?} usFirstCharIndex {:?}: {} probes, {} on mapped codes",
+            case.recs.iter().map(|r| (r.platform, r.encoding, r.format, r.map.len())).collect::<Vec<_>>(),
+            case.first_char,
+            stats.probes,
+            stats.hits
+        )
+    });
+    // attributed deviations are reported last so that everything else about the case was checked
+    if let Some(m) = stats.zero_entry {
+        return Err(fail("f4-zero-array-entry-gets-idDelta", m));
+    }
+    if let Some(m) = stats.f2_alias {
+        return Err(fail("f2-code-above-16-bits-aliased", m));
+    }
+    if let Some(m) = stats.f14_selected {
+        return Err(fail("format-14-record-selected-as-character-map", m));
+    }
+    Ok(())
+}
+
+// ---------------------------------------------------------------------------------------------
+// exhaustive conversions
+
+fn macroman_byte(b: u8, rec: &mut Rec) -> CaseResult {
+    use allsorts::macroman::{char_to_macroman, macroman_to_char};
+    let mine = rm::mac_roman_decode(b);
+    match macroman_to_char(b) {
+        // the documented exclusion list (PDF MacRomanEncoding subset) is not a violation
+        None if rm::mac_roman_pdf_excluded(b) => {
+            rec.class("excluded:mac-roman-code-undefined-by-design");
+            Ok(())
+        }
+        None => Err(fail(
+            "macroman-code-undefined",
+            format!("macroman_to_char({:#04X}) = None; Mac OS Roman defines it as U+{:04X}", b, mine),
+        )),
+        Some(c) => {
+            let ok = c as u32 == mine || (b == 0xDB && c as u32 == rm::MAC_ROMAN_DB_OLD);
+            if !ok {
+                return Err(fail(
+                    "macroman-wrong-char",
+                    format!("macroman_to_char({:#04X}) = U+{:04X}; Mac OS Roman defines it as U+{:04X}", b, c as u32, mine),
+                ));
+            }
+            if char_to_macroman(c) != Some(b) {
+                return Err(fail(
+                    "macroman-not-inverse",
+                    format!("macroman_to_char({:#04X}) = U+{:04X} but char_to_macroman(U+{:04X}) = {:?}", b, c as u32, c as u32, char_to_macroman(c)),
+                ));
+            }
+            Ok(())
+        }
+    }
+}
+
+fn macroman_plane(plane: u32) -> CaseResult {
+    use allsorts::macroman::{char_to_macroman, is_macroman, macroman_to_char};
+    for v in plane << 16..(plane + 1) << 16 {
+        let c = match char::from_u32(v) {
+            Some(c) => c,
+            None => continue,
+        };
+        let a = char_to_macroman(c);
+        if is_macroman(c) != a.is_some() {
+            return Err(fail("macroman-is_macroman", format!("is_macroman(U+{:04X}) disagrees with char_to_macroman", v)));
+        }
+        if let Some(b) = a {
+            if macroman_to_char(b) != Some(c) {
+                return Err(fail(
+                    "macroman-not-inverse",
+                    format!("char_to_macroman(U+{:04X}) = {:#04X} but macroman_to_char({:#04X}) = {:?}", v, b, b, macroman_to_char(b)),
+                ));
+            }
+            let ok = rm::mac_roman_encode(v) == Some(b) || (b == 0xDB && v == rm::MAC_ROMAN_DB_OLD);
+            if !ok {
+                return Err(fail(
+                    "macroman-wrong-code",
+                    format!("char_to_macroman(U+{:04X}) = {:#04X}; Mac OS Roman says {:X?}", v, b, rm::mac_roman_encode(v)),
+                ));
+            }
+        }
+    }
+    Ok(())
+}
+
+fn big5_plane(plane: u32, rec: &mut Rec) -> CaseResult {
+    use allsorts::big5::{big5_to_unicode, unicode_to_big5};
+    let mut image = 0u64;
+    for v in plane << 16..(plane + 1) << 16 {
+        let c = match char::from_u32(v) {
+            Some(c) => c,
+            None => continue,
+        };
+        let a = unicode_to_big5(c);
+        if a != rm::big5_encode(c) {
+            return Err(fail("big5-encode", format!("unicode_to_big5(U+{:04X}) = {:X?}, WHATWG encoder says {:X?}", v, a, rm::big5_encode(c))));
+        }
+        if let Some(code) = a {
+            image += 1;
+            let back = big5_to_unicode(code);
+            if back != Some(c) {
+                return Err(fail(
+                    "big5-not-inverse",
+                    format!("unicode_to_big5(U+{:04X}) = {:#06X} but big5_to_unicode({:#06X}) = {:X?}", v, code, code, back.map(|c| c as u32)),
+                ));
+            }
+            // the converse on the encoder's image
+            if back.and_then(unicode_to_big5) != Some(code) {
+                return Err(fail("big5-not-inverse", format!("code {:#06X} of the encoder's image does not survive decode/encode", code)));
+            }
+        }
+    }
+    rec.class_if(image > 0, "big5:plane-with-encodable-chars");
+    rec.evaluations(image);
+    Ok(())
+}
+
+/// Differential on real fonts: the independent reader's view of the selected subtable against
+/// allsorts' enumeration and lookups (also the sanity check of the reader itself).
+fn check_fixture(i: u64, rec: &mut Rec) -> CaseResult {
+    use crate::props::c08;
+    let names = c08::fixture_names();
+    let name = match names.get(i as usize) {
+        Some(n) => n,
+        None => return Ok(()),
+    };
+    let f = match c08::fixture(name) {
+        Some(f) => f,
+        None => return Ok(()),
+    };
+    let src = match &*f {
+        Ok(s) => s,
+        Err(_) => {
+            rec.class("fixture:no-usable-cmap");
+            return Ok(());
+        }
+    };
+    rec.hash_bytes(name.as_bytes());
+    let mut font = match load_font(&src.bytes) {
+        Ok(f) => f,
+        Err(e) => return Err(fail("fixture-rejected", format!("{}: Font::new: {} (the reference reader selects ({},{}) format {})", name, e, src.platform_encoding.0, src.platform_encoding.1, src.format))),
+    };
+    if enc_of(font.cmap_subtable_encoding) != src.enc {
+        return Err(fail("selection-encoding", format!("{}: cmap_subtable_encoding {:?}, reference {:?}", name, font.cmap_subtable_encoding, src.enc)));
+    }
+    rec.class(&format!("fixture:{:?} f{}", src.enc, src.format));
+    // enumeration of the selected subtable
+    let st = ReadScope::new(font.cmap_subtable_data())
+        .read::<CmapSubtable<'_>>()
+        .map_err(|e| fail("subtable-rejected", format!("{}: {:?}", name, e)))?;
+    let mut listed: BTreeMap<u32, u16> = BTreeMap::new();
+    st.mappings_fn(|c, g| {
+        if g != 0 {
+            listed.entry(c).or_insert(g);
+        }
+    })
+    .map_err(|e| fail("mappings_fn-error", format!("{}: {:?}", name, e)))?;
+    if src.format == 2 {
+        // only the codes format 2 defines unambiguously are compared: the reference reader
+        // answers 0 for the others, so restrict both sides to the reference's domain
+        listed.retain(|c, _| src.table.contains_key(c));
+    }
+    if listed != src.table {
+        let a: Vec<_> = src.table.iter().filter(|(c, g)| listed.get(c) != Some(g)).take(3).collect();
+        let b: Vec<_> = listed.iter().filter(|(c, g)| src.table.get(c) != Some(g)).take(3).collect();
+        return Err(fail("fixture-enumeration", format!("{}: format {}: reference has {:X?}, mappings_fn has {:X?}", name, src.format, a, b)));
+    }
+    // lookups through the font
+    let first_char = src.first_char.unwrap_or(0x20);
+    if (src.enc == Enc::Symbol || src.enc == Enc::MacRoman) && first_char < 0x20 {
+        rec.class("excluded:usFirstCharIndex<0x20");
+        return Ok(());
+    }
+    let step = (src.table.len() / 4000).max(1);
+    let mut n = 0u64;
+    for (k, (code, _)) in src.table.iter().enumerate() {
+        if k % step != 0 {
+            continue;
+        }
+        let mut chars = BTreeSet::new();
+        for d in [code.wrapping_sub(1), *code, code.wrapping_add(1)] {
+            chars_for_code(src.enc, d, first_char, &mut chars);
+        }
+        for ch in chars {
+            if src.enc == Enc::MacRoman && rm::mac_roman_disputed_char(ch as u32) {
+                continue;
+            }
+            let exp = match rm::char_code(src.enc, ch, first_char) {
+                Some(c) => src.table.get(&c).copied().unwrap_or(0),
+                None => 0,
+            };
+            let got = font.lookup_glyph_index(ch, MatchingPresentation::NotRequired, None).0;
+            if got != exp {
+                return Err(fail("fixture-lookup", format!("{}: lookup_glyph_index(U+{:04X}) = {}, reference reader says {}", name, ch as u32, got, exp)));
+            }
+            n += 1;
+        }
+    }
+    rec.evaluations(n);
+    rec.set_nontrivial(!src.table.is_empty());
+    Ok(())
+}
 
 impl Property for C06 {
     fn id(&self) -> &'static str {
         "C06"
     }
     fn rule(&self) -> String {
-        "not implemented".to_string()
+        "cmap model (1-4 encoding records; formats 0/2/4/6/10/12; Unicode, Symbol, Mac Roman, Big5 and ignored \
+         records) -> fontgen::cmap under random layouts -> allsorts; expected = model entry of the record the \
+         documented preference order selects. Non-trivial = at least one probe on a mapped code (all probes lie on \
+         model codes, within 1 of a segment/group edge, on fixed boundary codes, or belong to an exhaustive sweep); \
+         distinct = hash of the cmap table bytes + usFirstCharIndex"
+            .into()
     }
-    fn run(&self, _ctx: &mut Ctx) {}
+    fn assumptions(&self) -> Vec<String> {
+        vec![
+            "encoding_rs is the reference for Big5 (WHATWG index); the converse direction is asserted on the encoder's image only".into(),
+            "Mac OS Roman reference = Apple ROMAN.TXT minus the fifteen codes allsorts leaves undefined by design (PDF MacRomanEncoding subset; lead decision); 0xDB may be U+20AC or U+00A4; font-level probes skip those characters (counted)".into(),
+            "format 2: only codes the format defines unambiguously are compared".into(),
+            "OS/2.usFirstCharIndex >= 0x20 (smaller values make the documented symbol formula underflow: C01)".into(),
+            "Mac Roman lookups of characters outside Mac Roman follow the symbol rule, as font.rs documents".into(),
+        ]
+    }
+    fn run(&self, ctx: &mut Ctx) {
+        let n = ctx.cases(6_000, 150_000);
+        ctx.section("tables", n, case_strategy(None), |c, rec| check_case(c, rec));
+        let n = ctx.cases(16, 300);
+        for (name, e) in [
+            ("sweep-unicode", Enc::Unicode),
+            ("sweep-symbol", Enc::Symbol),
+            ("sweep-macroman", Enc::MacRoman),
+            ("sweep-big5", Enc::Big5),
+        ] {
+            ctx.section(name, n, case_strategy(Some(e)), |c, rec| check_case_inner(c, rec, true));
+        }
+        let nfix = crate::props::c08::fixture_names().len() as u64;
+        ctx.enumerate("fixtures", nfix, false, |i, rec| check_fixture(i, rec));
+        ctx.enumerate("macroman-bytes", 256, true, |b, rec| {
+            rec.nontrivial();
+            rec.hash_u64(b);
+            macroman_byte(b as u8, rec)
+        });
+        ctx.enumerate("macroman-chars", 17, true, |p, rec| {
+            rec.set_nontrivial(p == 0);
+            rec.hash_u64(p);
+            rec.evaluations(65535);
+            macroman_plane(p as u32)
+        });
+        ctx.enumerate("big5-chars", 17, true, |p, rec| {
+            rec.set_nontrivial(p <= 2);
+            rec.hash_u64(p);
+            big5_plane(p as u32, rec)
+        });
+    }
 }
